@@ -45,7 +45,7 @@ struct HIST {
             fill_parent(model, SZ, g); std::memcpy(M.data(), model, sizeof model); std::memcpy(O.data(), model, sizeof model);
             int len = (int)g.range(10, 50); std::string trace;
             for (int st = 0; st < len; ++st) {
-                int kind = (int)(g.next() % 7), op = (int)(g.next() % 5);
+                int kind = (int)(g.next() % 9), op = (int)(g.next() % 5);
                 long double mx = 0; for (size_t i = 0; i < SZ; ++i) mx = std::max(mx, fabsl((long double)model[i]));
                 if (mx > 2000) { if (op == 3) op = 2; if (kind == 2) kind = 0; }
                 T s = opaque(pick_scalar<T>(g, op)); fill_parent(Rt.data(), SZ, g);
@@ -62,6 +62,13 @@ struct HIST {
                     if (w == 0) { trace += " fill"; for (size_t i = 0; i < SZ; ++i) model[i] = v; M.fill(v); O.fill(v); }
                     else if (w == 1) { trace += " iota"; for (size_t i = 0; i < SZ; ++i) model[i] = (T)(v + (T)i); M.iota(v); O.iota(v); }
                     else { trace += " zeros"; for (size_t i = 0; i < SZ; ++i) model[i] = T(0); M.zeros(); O.zeros(); } break; }
+                case 7: case 8: { // the right-hand side is itself a map of the SAME storage (a second map / reshape<same extents> / flatten): x op= x element by element
+                    bool z = false; if (op == 4) for (size_t i = 0; i < SZ; ++i) if (model[i] == T(0)) z = true;
+                    if (z || (op == 3 && mx > 40)) break;
+                    for (size_t i = 0; i < SZ; ++i) model[i] = apply(op, model[i], model[i]);
+                    if (kind == 7) { trace += std::string(" X") + OPN[op] + "map-of-X"; TensorMap<T, D...> M2(M.data()); whole_tensor(M, op, M2); whole_tensor(O, op, reshape<D...>(O)); }
+                    else { trace += std::string(" X") + OPN[op] + "flatten(X)"; TensorMap<T, SZ> Mf(M.data()); whole_tensor(M, op, Mf); whole_tensor(O, op, flatten(O)); }
+                    break; }
                 default: { // read through the map into an expression assigned to an owning tensor, then back
                     trace += " X=X+R(via tmp)"; Tensor<T, D...> tmpM = M + Rt, tmpO = O + Rt; for (size_t i = 0; i < SZ; ++i) model[i] = model[i] + Rt.data()[i]; M = tmpM; O = tmpO; break; }
                 }
